@@ -220,10 +220,36 @@ seq(prop="C08", lean_targets=["TransportVerif.Props.C08"], pkg="packetio", run="
          "while a packet is buffered or after Close). non-trivial = two readers between unlock and select at once, a reader passing the token on, a dropped token, a hand-off to a "
          "parked reader, Close waking readers; distinct = hash of the schedule",
     design_ref="DESIGN.md 7.8", technique="Lean 4 proof: step invariant of a transition system for any number of reader/writer/closer threads (no stranded reader at quiescence); schedules replayed on the real Buffer under a controlled scheduler (source rewritten with yield points) and compared step by step",
-    level_text="PENDING", level_note="PENDING",
+    level_text="Theorems (Props/C08.lean) about a transition system of the Buffer's blocking behaviour for ANY number of reader, writer and closer threads and ANY schedule at the granularity of the lock and the wait: no_stranded_reader (in every reachable state where no thread can move, no reader is blocked while a packet is buffered, nor after Close), close_wakes_all, token_implies_nobody_parked, read_at_lock (a Read that finds a packet returns it without waiting; after Close the remaining packets are read, then end-of-file), count_conserved. Proved by a step invariant (a buffered packet with the buffer open implies a pending token or a reader on its way to the lock). The pinned tree violated it (two readers between unlock and wait, two writes, one token: witness schedule in corpus/C08, replayed on the real Buffer); repaired by a fix: commit. Tie to buffer.go: yield points are inserted by an AST pass before every mutex.Lock() and the blocking select; random and readers-first schedules are executed on the real Buffer under a controlled scheduler and, after every grant, the positions of all goroutines (yield site, parked in the runtime, finished with which result) and Count are compared with the model.", level_note="Trusted: Lean kernel + standard axioms; Go runtime semantics as modelled (a send goes to the longest-waiting receiver before the channel buffer, close wakes all receivers, mutex regions atomic); vrewrite/cosched; parking read from runtime.Stack. The theorem is about quiescent states: scheduler fairness is assumed. Read deadlines ('a passed deadline makes Read fail until changed') are covered by C10's model/harness, not by this transition system.",
     trusted=LEAN_TB + ["hand-written transition system Model/BufferSync.lean; tied to buffer.go by (a) the synchronisation skeleton extracted by vrewrite from the working tree and (b) controlled-schedule runs on the real Buffer compared after every grant",
                        "Go runtime semantics as modelled: a channel send goes to the longest-waiting receiver before the buffer; close wakes all receivers; mutex regions are atomic",
                        "vrewrite (AST pass inserting yields), cosched (controller; parking read from runtime.Stack)"],
     assumptions=["the theorem is about quiescent states; scheduler fairness (a runnable goroutine eventually runs) is assumed", "read deadlines are covered by C10, not by this transition system"])
+
+def _vtime_yield(rel, funcs, kinds):
+    from . import core
+
+    def f(work):
+        m = core.vtime_overlay(work, [rel])
+        return core.yield_overlay(work, rel, funcs, kinds, src=m.get(rel))
+    return f
+
+
+seq(prop="C14", lean_targets=["TransportVerif.Props.C14"], pkg="vnet", run="^TestVerifDelay$", component="delay",
+    files=["delay_h_test.go"], quick_n=500, thorough_n=20000, search_n=2000,
+    variants=[dict(overlay_fn=_vtime_yield("vnet/delay_filter.go", ["Run", "onInboundChunk"], "select,send"))],
+    nontrivial=["tick-arm-while-sender-in-window", "notify-after-drain", "notify-wakes-loop", "timer-fires", "forward", "push-arm"],
+    rule="controlled schedules of the DelayFilter loop and 1..5 senders under a virtual clock: delays 0, 1 ns, 1 us, 1/10/50 ms; operations: a sender timestamps and queues its chunk (stopping "
+         "before the notification), a sender notifies, the loop evaluates its select, time advances (one timer expiry per step); the select is kept deterministic (never a blocked sender and a "
+         "pending tick at once). After every step queue length, loop and sender positions and the forwards with their virtual times are compared with the model; the implementation's final "
+         "line is judged (no panic, no forward before arrival+delay, arrival order, no duplicates, everything notified forwarded after draining). non-trivial = the timer arm runs while a sender "
+         "sits between queueing and notifying, a notification arrives after the queue was drained, a tick, a forward; distinct = hash of the schedule",
+    design_ref="DESIGN.md 7.14", technique="Lean 4 proof: timed step invariants of a transition system of the filter loop, its runtime timer and any number of senders (no panic, lower bound, FIFO exactly-once, progress); schedules replayed on the real DelayFilter under virtual time and a controlled scheduler",
+    level_text="PENDING", level_note="PENDING",
+    trusted=LEAN_TB + ["hand-written transition system Model/Delay.lean tied to delay_filter.go by controlled-schedule runs (vtime + cosched) compared after every step",
+                       "Go channel-timer semantics for asynctimerchan=1 as modelled (capacity-1 channel, non-blocking send at expiry, Stop/Reset); ticks are never early and carry a positive lateness",
+                       "vrewrite, cosched, vtime"],
+    assumptions=["the router's minimum delay (Router.processChunks) is covered by correspondence in C01's harness only; the theorems are about the DelayFilter",
+                 "the select of the loop is only exercised when one case is ready (the choice between two ready cases is Go's; both orders are reachable through the other steps)"])
 
 ALL = SEQ
